@@ -28,8 +28,8 @@ add("C04", "regex-guard-inverted", RT,
     [("        if not context.dry_run:\n            file_context.file_path.write_bytes", "        if context.dry_run:\n            file_context.file_path.write_bytes")],
     "fire", "R-DRYRUN-GUARD", "RegexTransformerPipeline.apply")
 add("C04", "pyproject-guard-removed", PYW,
-    [("        if not dry_run:\n            with open(self.path, \"w\", encoding=\"utf-8\") as f:\n                tomlkit.dump(pyproject, f)",
-      "        with open(self.path, \"w\", encoding=\"utf-8\") as f:\n            tomlkit.dump(pyproject, f)")],
+    [("        if not dry_run:\n            with open(self.path, \"w\", encoding=\"utf-8\", newline=\"\") as f:\n                tomlkit.dump(pyproject, f)",
+      "        with open(self.path, \"w\", encoding=\"utf-8\", newline=\"\") as f:\n            tomlkit.dump(pyproject, f)")],
     "fire", "R-DRYRUN-GUARD", "PyprojectWriter.add_to_file")
 add("C04", "context-drops-dry-arg", CTXF,
     [("dm.write(list(dependencies), self.dry_run)", "dm.write(list(dependencies))")],
@@ -57,10 +57,10 @@ add("C04", "benign-early-return-guard", RT,
      , ("            changes=changes,\n        )\n\n\nclass SastRegex", "            changes=changes,\n        )\n        if not context.dry_run:\n            file_context.file_path.write_bytes(\"\".join(updated_lines).encode(\"utf-8\"))\n        return change_set\n\n\nclass SastRegex")],
     "silent")
 add("C04", "benign-helper-extraction", SPW,
-    [("        if not dry_run:\n            with open(self.path, \"w\", encoding=\"utf-8\") as f:\n                f.write(output_tree.code)\n",
+    [("        if not dry_run:\n            with open(self.path, \"w\", encoding=\"utf-8\", newline=\"\") as f:\n                f.write(output_tree.code)\n",
       "        if not dry_run:\n            self._store(output_tree.code)\n"),
-     ("    def _parse_file(self):\n        with open(self.path, encoding=\"utf-8\") as f:\n            return cst.parse_module(f.read())",
-      "    def _store(self, code):\n        with open(self.path, \"w\", encoding=\"utf-8\") as f:\n            f.write(code)\n\n    def _parse_file(self):\n        with open(self.path, encoding=\"utf-8\") as f:\n            return cst.parse_module(f.read())")],
+     ("    def _parse_file(self):\n",
+      "    def _store(self, code):\n        with open(self.path, \"w\", encoding=\"utf-8\", newline=\"\") as f:\n            f.write(code)\n\n    def _parse_file(self):\n")],
     "silent")
 
 # --------------------------------------------------------------------------- C03
@@ -422,6 +422,32 @@ add("C01", "flask-json-fixed-quote-foreign-text", "core_codemods/flask_json_resp
     [("            cst.SimpleString(f\"'{self.content_type_key}'\"),\n            cst.SimpleString(f\"'{self.json_content_type}'\"),\n        )", "            cst.SimpleString(f\"'{self.content_type_key}'\"),\n            cst.SimpleString(f\"'{node.value}'\"),\n        )")],
     "fire", "R-STRLIT", "FlaskJsonResponseTypeVisitor")
 
+add("C01", "benign-comma-reset-in-list-literal", "codemodder/codemods/transformations/remove_unused_imports.py",
+    [("            new_aliases[-1] = new_aliases[-1].with_changes(\n                comma=cst.MaybeSentinel.DEFAULT\n            )\n            return updated_node.with_changes(names=new_aliases)\n", "            last = new_aliases[-1].with_changes(comma=cst.MaybeSentinel.DEFAULT)\n            return updated_node.with_changes(names=[*new_aliases[:-1], last])\n")],
+    "silent")
+add("C01", "list-literal-keeps-last-alias-comma", "codemodder/codemods/transformations/remove_unused_imports.py",
+    [("            new_aliases[-1] = new_aliases[-1].with_changes(\n                comma=cst.MaybeSentinel.DEFAULT\n            )\n            return updated_node.with_changes(names=new_aliases)\n", "            return updated_node.with_changes(names=[*new_aliases[:-1], new_aliases[-1]])\n")],
+    "fire", "R-COMMA-TAIL", "leave_import_alike")
+add("C01", "comma-reset-only-under-unrelated-guard", "codemodder/codemods/transformations/remove_unused_imports.py",
+    [("            new_aliases[-1] = new_aliases[-1].with_changes(\n                comma=cst.MaybeSentinel.DEFAULT\n            )\n            return updated_node.with_changes(names=new_aliases)\n", "            if len(original_node.names) > 2:\n                new_aliases[-1] = new_aliases[-1].with_changes(comma=cst.MaybeSentinel.DEFAULT)\n            return updated_node.with_changes(names=new_aliases)\n")],
+    "fire", "R-COMMA-TAIL", "leave_import_alike")
+add("C02", "benign-unused-membership-in-predicate-method", "codemodder/codemods/transformations/remove_unused_imports.py",
+    [("            if (ia, original_node) not in self.unused_imports\n", "            if not self._is_unused(ia, original_node)\n"),
+     ("    def leave_Import(\n", "    def _is_unused(self, alias, import_node):\n        return (alias, import_node) in self.unused_imports\n\n    def leave_Import(\n")],
+    "silent")
+add("C02", "unused-decided-by-alias-name", "codemodder/codemods/transformations/remove_unused_imports.py",
+    [("            if (ia, original_node) not in self.unused_imports\n", "            if ia.evaluated_name not in {a.evaluated_name for a, _ in self.unused_imports}\n")],
+    "fire", "R-IMPORT-REMOVAL-OWNER", "identity-of-gathered-pairs")
+add("C06", "benign-sonar-status-filter-builtin", "core_codemods/sonar/results.py",
+    [("            for result in (data.get(\"issues\") or []) + (data.get(\"hotspots\") or []):\n                if result[\"status\"].lower() in (\"open\", \"to_review\"):\n                    result_set.add_result(SonarResult.from_result(result))\n",
+      "            for result in filter(lambda r: r[\"status\"].lower() in _OPEN, (data.get(\"issues\") or []) + (data.get(\"hotspots\") or [])):\n                result_set.add_result(SonarResult.from_result(result))\n"),
+     ("class SonarLocation(Location):", "_OPEN = (\"open\", \"to_review\")\n\n\nclass SonarLocation(Location):")],
+    "silent")
+add("C06", "sonar-status-constant-includes-closed", "core_codemods/sonar/results.py",
+    [("                if result[\"status\"].lower() in (\"open\", \"to_review\"):\n", "                if result[\"status\"].lower() in _OPEN:\n"),
+     ("class SonarLocation(Location):", "_OPEN = (\"open\", \"to_review\", \"resolved\")\n\n\nclass SonarLocation(Location):")],
+    "fire", "R-OPEN-STATUS", "SonarResultSet.from_json")
+
 # --------------------------------------------------------------------------- C02
 add("C02", "secure-random-import-dropped", "core_codemods/secure_random.py",
     [("        self.add_needed_import(\"secrets\")\n", "")],
@@ -765,7 +791,7 @@ add("C14", "failed-notice-suppressed-by-extra-condition", CTXF,
     [("            else:\n                description += build_failed_dependency_notification(dependencies[0])", "            elif not self.dry_run:\n                description += build_failed_dependency_notification(dependencies[0])")],
     "fire", "R-FAILED-NOTICE", "add_description")
 add("C14", "manifest-read-with-error-handler", REQW,
-    [("            with open(self.path, \"r\", encoding=\"utf-8\") as f:", "            with open(self.path, \"r\", encoding=\"utf-8\", errors=\"replace\") as f:")],
+    [("            with open(self.path, \"r\", encoding=\"utf-8\", newline=\"\") as f:", "            with open(self.path, \"r\", encoding=\"utf-8\", newline=\"\", errors=\"replace\") as f:")],
     "fire", "R-STRICT-DECODE", "RequirementsTxtWriter")
 add("C18", "call-target-rebuilt-from-original-node", "core_codemods/secure_random.py",
     [("        return self.update_call_target(updated_node, \"secrets.SystemRandom()\")", "        return self.update_call_target(original_node, \"secrets.SystemRandom()\")")],
